@@ -184,9 +184,9 @@ def check(ctx):
     ctx.explanation = EXPLANATION
     ctx.trusted = ["rustc macro expansion and MIR construction", "a `[v; n]` repeat expression is n copies of v (language semantics)", "vec! stores its operands in order; vec::from_elem(x, n) is n clones of x"]
     ctx.assumptions = ["element expressions with side effects are modelled by distinct opaque function calls"]
-    ctx.need("F0", "F1")
+    ctx.need("F0", "F1", "F1N")
     n_list = n_rep = 0
-    for cfg, alloc in (("F0", False), ("F1", True)):
+    for cfg, alloc in (("F0", False), ("F1", True), ("F1N", True)):
         if alloc:
             # the hidden helper the boxed list form hands its Vec to: adopting it as the box must not depend on anything but len == N
             # (the rule is C15.D's; it is run here as well because `box_arr!` builds the array its syntax denotes only if the helper does)
